@@ -152,15 +152,12 @@ def s_str_get_from(ex, st, fr, text, args):
         return Fork(branches)
     if not (isinstance(v, Native) and v.tag == 'symstr'):
         raise Inconclusive('str::get on %r' % (v,))
-    base = v.p[0] if v.p else 0
     chars, ln = st.aux['input']
-    offs = [z3.IntVal(0)]
-    for c in chars:
-        offs.append(offs[-1] + SM.len_utf8_term(c).v)
+    base, offs = _offsets_of(st, v, chars)
     branches = []
     conds = []
     for j in range(base, len(chars) + 1):
-        cj = z3.And(a == offs[j] - offs[base], zi(ln) >= j)
+        cj = z3.And(a == offs[j], zi(ln) >= j)
         conds.append(cj)
         branches.append((cj, (lambda jj: (lambda s2: E('Some', (Native('symstr', (jj,)),))))(j)))
     branches.append((z3.Not(z3.Or(*conds)), lambda s2: E('None')))
@@ -183,6 +180,100 @@ def s_str_len(ex, st, fr, text, args):
     for j in range(base, len(chars)):
         total = total + z3.If(zi(ln) > j, SM.len_utf8_term(chars[j]).v, 0)
     return S(64, z3.simplify(total))
+
+
+def _offsets_of(st, v, chars):
+    """(base, offs): offs[j] = the byte index, in the coordinates of the string value v, of the boundary before
+    character j.  The whole input (`symstr` without a base) is indexed by the lexer's absolute byte indices (the
+    symbolic start location lies before its first modelled character); a suffix view is indexed from its own start"""
+    base = v.p[0] if v.p else 0
+    if not v.p:
+        return 0, _abs_offsets(st, chars)
+    rel = [z3.IntVal(0)]
+    for c in chars:
+        rel.append(rel[-1] + SM.len_utf8_term(c).v)
+    return base, [r - rel[base] for r in rel]
+
+
+def _abs_offsets(st, chars):
+    """byte offsets of the characters of the symbolic input string, in the coordinates of the lexer's byte indices
+    (the symbolic start location is part of them)"""
+    bounds = st.aux.get('str_bounds')
+    if bounds is not None and len(bounds) == len(chars) + 1:
+        return [t for t, ok in bounds]
+    offs = [z3.IntVal(0)]
+    for c in chars:
+        offs.append(offs[-1] + SM.len_utf8_term(c).v)
+    return offs
+
+
+def s_str_as_bytes(ex, st, fr, text, args):
+    """str::as_bytes: the bytes of a string constant, or a view of the symbolic input string"""
+    v = args[0]
+    if isinstance(v, Ref):
+        v = ex.deref(st, v)
+    if isinstance(v, Native) and v.tag == 'str':
+        return Native('vec', (tuple(S(8, b_) for b_ in str_lit(v.p[0]).encode('utf-8')),))
+    if isinstance(v, Native) and v.tag == 'symstr':
+        return Native('symbytes', tuple(v.p))
+    raise Inconclusive('as_bytes of %r' % (v,))
+
+
+def s_bytes_get(ex, st, fr, text, args):
+    """<[u8]>::get(i) on the bytes of the symbolic input string: the first byte of the character that starts at byte
+    offset i (None at and beyond the length; an offset inside a character is not modelled)"""
+    v, a_ = args
+    if isinstance(v, Ref):
+        v = ex.deref(st, v)
+    if isinstance(v, Native) and v.tag == 'vec':
+        el = v.p[0]
+        def mkc(jj):
+            def th(s2):
+                k_ = '__byte%d' % len(s2.root())
+                s2.root()[k_] = el[jj]
+                return E('Some', (Ref(0, k_, ()),))
+            return th
+        if a_.conc():
+            return mkc(a_.v)(st) if a_.v < len(el) else E('None')
+        a = zi(a_)
+        br = [((a == j), mkc(j)) for j in range(len(el))]
+        br.append((a >= len(el), lambda s2: E('None')))
+        return Fork(br)
+    if not (isinstance(v, Native) and v.tag == 'symbytes'):
+        raise Inconclusive('slice::get on %r' % (v,))
+    a = zi(a_)
+    chars, ln = st.aux['input']
+    base, offs = _offsets_of(st, v, chars)
+    branches = []
+    conds = []
+
+    def first_byte(c):
+        x = zi(c)
+        return z3.If(x < 0x80, x, z3.If(x < 0x800, 0xC0 + x / 64, z3.If(x < 0x10000, 0xE0 + x / 4096, 0xF0 + x / 262144)))
+    for j in range(base, len(chars)):
+        cj = z3.And(a == offs[j], zi(ln) > j)
+        conds.append(cj)
+        def mk(jj):
+            def th(s2):
+                k_ = '__byte%d' % len(s2.root())
+                s2.root()[k_] = S(8, z3.simplify(first_byte(chars[jj])))
+                return E('Some', (Ref(0, k_, ()),))
+            return th
+        branches.append((cj, mk(j)))
+    total = offs[base]
+    end_conds = []
+    for j in range(base, len(chars) + 1):
+        end_conds.append(z3.And(zi(ln) == j, a >= offs[j]))
+    ec = z3.Or(*end_conds)
+    branches.append((ec, lambda s2: E('None')))
+    def limit(s2):
+        raise Inconclusive('byte offset inside a character of the symbolic string (bytes other than the first of a character are not modelled)')
+    branches.append((z3.Not(z3.Or(ec, *conds)), limit))
+    return Fork(branches)
+
+
+def s_char_from_u8(ex, st, fr, text, args):
+    return S(32, args[0].v)
 
 
 def s_str_index(ex, st, fr, text, args):
@@ -246,6 +337,9 @@ HARNESS_SUMMARIES = [
     (re.compile(r'^<str as (std::ops::)?Index<(std::ops::)?RangeFrom<usize>>>::index$'), s_str_index_from),
     (re.compile(r'^core::str::<impl str>::get::<(std::ops::)?RangeFrom<usize>>$'), s_str_get_from),
     (re.compile(r'^core::str::<impl str>::len$'), s_str_len),
+    (re.compile(r'^core::str::<impl str>::as_bytes$'), s_str_as_bytes),
+    (re.compile(r'^core::slice::<impl \[u8\]>::get::<usize>$'), s_bytes_get),
+    (re.compile(r'^<char as (std::convert::)?From<u8>>::from$'), s_char_from_u8),
     (re.compile(r'(^|::)St::decide$|^rt::<impl at [^>]*>::decide$|St>::decide$'), s_decide),
 ]
 
@@ -722,6 +816,16 @@ class StepHarness:
                 if self.behaves_like_other_ruleset(got, rs_before, syms, st):
                     asp.add('ruleset')
             except (Need, RefAbort):
+                pass
+            try:
+                lm_ = st.root()['lx'].f[0].f[F['last_match']]
+                if not (isinstance(lm_, E) and lm_.v == 'None'):
+                    # besides returning the wrong item the call leaves a saved match behind: a later failure replays it
+                    # (items out of order, more items than characters)
+                    asp.add('progress')
+                    if got[0] == 'invalid':
+                        asp.add('recover')
+            except Exception:
                 pass
             if got[0] == 'tok':
                 # a token that does not start where this call's match started overlaps / reorders lexemes
